@@ -81,6 +81,11 @@ def vec_equation_case(r, rec):
     if r.random() < 0.2:
         terms.append(r.choice(Sx) * V[r.randrange(nv)])  # a second term with the same vector and another coefficient
         several = True
+    if r.random() < 0.25:
+        # brackets nested two deep: y * (x * (a + b) + c)
+        terms.append(r.choice(Sx) * (r.choice(Sx[:2] + [sympy.Integer(2)]) * (V[0] + V[1]) + V[r.randrange(nv)]))
+        several = True
+        rec.hit("nested_brackets")
     if F is not None:
         terms.append(coeff() * F)
     r.shuffle(terms)
@@ -304,6 +309,13 @@ def apply_case(r, rec):
     name = r.choice(list(fs))
     f = fs[name]
     as_eq = r.random() < 0.6
+    if not as_eq and r.random() < 0.5:
+        # a bare scalar expression (read as `expression = 0`), also objects that happen to have operands called lhs / rhs
+        lhs = r.choice([VectorDot(u, v), VectorDot(u, v) + k, VectorNorm(u), VectorDot(VectorCross(u, v), w), k * VectorDot(v, w)])
+        sfs = {"scale": lambda e: e * 3, "add-scalar": lambda e: e + k, "square": lambda e: e ** 2, "times-vector": lambda e: e * w}
+        name = r.choice(list(sfs))
+        f = sfs[name]
+        rec.hit("apply_bare_scalar")
     inp = Eq(lhs, rhs, evaluate=False) if as_eq else lhs
     rec.case(("apply", name, as_eq, str(rhs)))
     rec.hit("apply")
